@@ -169,9 +169,23 @@ def _make_permset(perm_seed):
                 self._order.append(x)
             super().add(x)
 
+        def discard(self, x):
+            super().discard(x)
+            if x in self._order:
+                self._order.remove(x)
+
+        def remove(self, x):
+            super().remove(x)
+            if x in self._order:
+                self._order.remove(x)
+
+        def clear(self):
+            super().clear()
+            self._order = []
+
         def __iter__(self):
             self._iters += 1
-            order = list(self._order)
+            order = [x for x in self._order if set.__contains__(self, x)]
             random.Random("perm:%d:%d:%d" % (perm_seed, len(order), self._iters)).shuffle(order)
             return iter(order)
 
